@@ -53,7 +53,11 @@ Definition checkF (c : case_t) : bool :=
   | CaseCF cal u r b vals obs d2n idx =>
       dts_eqb obs (model_cf cal u r b vals)
       && match d2n, obs with
-         | Some l, Some o => zl_opt_eqb (impl_date2num u r o) (Some l)
+         | Some l, Some o =>
+             zl_opt_eqb (match cal with
+                         | CalStd => impl_date2num u r o
+                         | _ => impl_date2num_fixed (fixed_leap cal) u r o
+                         end) (Some l)
          | _, _ => true
          end
       && match idx, d2n with
